@@ -25,6 +25,7 @@ type coreMon struct {
 	removed   map[int]bool // actor was removed as proposer (kick / fork)
 	reset     map[int]int64
 	outcomes  []string
+	spChanged bool // w-corem: an x/sequencer MsgUpdateParams was accepted earlier in this trace
 }
 
 func (m *coreMon) violate(sig, detail string) {
@@ -153,9 +154,26 @@ func (m *coreMon) check(op string, res string, cur *coreSnap) {
 				m.r.Hit("C07/roles/proposer-with-zero-bond")
 				if prev != nil && ri < len(prev.Ras) && prev.Ras[ri].Prop != r.Prop {
 					m.r.Hit("C07/roles/proposer-with-zero-bond/chosen-with-zero-bond-by-" + f[0])
+					if f[0] == "punish" || f[0] == "xferowner" || f[0] == "set_seq_params" { // w-corem: these never fill a proposer slot
+						m.violate("C07/roles/proposer-chosen-by-op-that-changes-no-role", fmt.Sprintf("r%d a%d -> a%d by %s", ri, prev.Ras[ri].Prop, r.Prop, op))
+					}
 				} else if prev != nil {
 					if pq, ok := prev.Seqs[r.Prop]; ok && !pq.Tokens.IsZero() {
 						m.r.Hit("C07/roles/proposer-with-zero-bond/sitting-proposer-emptied-by-" + f[0])
+						// --- w-corem: the op kinds of agent-corea.  `punish` (the standalone proposal) is a
+						// fourth legitimate route (Props/C07X zero_bond_proposer_by_punish_proposal); a liveness
+						// slash under x/sequencer parameters changed in mid-history is recorded separately
+						// (multiplier raised to 1 / minimum raised above the bond: the parameters IN FORCE
+						// count); an ownership transfer or a parameter update itself moves no bond at all
+						switch f[0] {
+						case "end":
+							if m.spChanged {
+								m.r.Hit("C07/roles/proposer-with-zero-bond/sitting-proposer-emptied-by-end/after-seq-params-update")
+							}
+						case "xferowner", "set_seq_params":
+							m.violate("C07/roles/sitting-proposer-bond-emptied-by-op-that-moves-no-bond", fmt.Sprintf("r%d a%d %s -> 0 by %s", ri, r.Prop, pq.Tokens, op))
+						}
+						// --- w-corem: end
 					}
 				}
 			}
@@ -464,6 +482,128 @@ func (m *coreMon) check(op string, res string, cur *coreSnap) {
 	// --- w-coreb: C03 frame when the punished sequencer belongs to another rollapp (core_c03x_test.go) ---
 	m.checkForeignPunish(op, f, kv, res, prev, cur)
 	// --- w-coreb: end ---
+	// ---- C07 / C20: the x/sequencer parameters change only by a MsgUpdateParams from the governance authority,
+	// only to valid values, and the message changes nothing else
+	if cur.SP != prev.SP {
+		switch {
+		case !(f[0] == "set_seq_params" && res == "ok"):
+			m.violate("C07/params/seq-params-changed-outside-update-params", fmt.Sprintf("%s -> %s by %s (res %s)", prev.SP, cur.SP, op, res))
+		case kv["auth"] != "gov":
+			m.violate("C07/params/seq-params-changed-without-governance-authority", op)
+		}
+	}
+	if f[0] == "set_seq_params" && res == "ok" {
+		if kv["notice"] == "0" || kv["kick"] == "0" {
+			m.violate("C07/params/invalid-seq-params-accepted", op)
+		}
+		if want := fmt.Sprintf("%s,%s,%s,%s,%s,%s", kv["notice"], kv["kick"], kv["mul"], kv["abs"], kv["dsu"], kv["dl"]); cur.SP != want {
+			m.violate("C07/params/stored-seq-params-differ-from-message", fmt.Sprintf("stored %s, message %s", cur.SP, want))
+		}
+		a, b := *prev, *cur
+		a.SP, b.SP = "", ""
+		if a.renderFull("x") != b.renderFull("x") {
+			m.violate("C07/params/update-params-changed-more-than-the-params", diffFields(a.renderFull("x"), b.renderFull("x")))
+		}
+		m.r.Hit("set_seq_params/accepted")
+		m.spChanged = true // w-corem
+	}
+	// ---- C11 / C20: rollapp owners (recipients of the rollapp gauges' payouts at epoch end): changed only
+	// by a MsgTransferOwnership signed by the current owner, never to an address the bank refuses
+	for ri, r := range cur.Ras {
+		if !r.Exists {
+			continue
+		}
+		if r.OwnerBlocked {
+			m.violate("C11/owner/rollapp-owned-by-blocked-address", fmt.Sprintf("r%d owner %s after %s", ri, r.Owner, op))
+		}
+		if ri >= len(prev.Ras) || !prev.Ras[ri].Exists {
+			continue
+		}
+		pr := prev.Ras[ri]
+		named := len(f) > 1 && f[1] == fmt.Sprintf("r%d", ri)
+		if r.Owner != pr.Owner {
+			switch {
+			case !(f[0] == "xferowner" && named && res == "ok"):
+				m.violate("C11/owner/owner-changed-outside-transfer", fmt.Sprintf("r%d %s -> %s by %s (res %s)", ri, pr.Owner, r.Owner, op, res))
+			case kv["by"] != pr.Owner:
+				m.violate("C11/owner/transfer-accepted-from-non-owner", fmt.Sprintf("r%d owner %s, signed by %s", ri, pr.Owner, kv["by"]))
+			case kv["to"] != r.Owner:
+				m.violate("C11/owner/transfer-to-another-address", fmt.Sprintf("r%d new owner %s, message names %s", ri, r.Owner, kv["to"]))
+			}
+		} else if f[0] == "xferowner" && named && res == "ok" {
+			m.violate("C11/owner/accepted-transfer-changed-nothing", op)
+		}
+		if f[0] == "xferowner" && res == "ok" {
+			a, b := pr, r
+			a.Owner, b.Owner = "", ""
+			if fmt.Sprintf("%+v", a) != fmt.Sprintf("%+v", b) {
+				m.violate("C11/owner/transfer-changed-more-than-the-owner", fmt.Sprintf("r%d by %s", ri, op))
+			}
+			if named {
+				m.r.Hit("xferowner/accepted/to-" + kv["to"][:1])
+			}
+		}
+	}
+	if f[0] == "xferowner" && res == "ok" {
+		if fmt.Sprint(cur.Seqs) != fmt.Sprint(prev.Seqs) || !cur.Mod.Equal(prev.Mod) || fmt.Sprint(cur.Bal) != fmt.Sprint(prev.Bal) {
+			m.violate("C11/owner/transfer-changed-more-than-the-owner", "sequencers or balances changed by "+op)
+		}
+	}
+	// ---- C07 / C20: the standalone PunishSequencerProposal changes no role, forks nothing, touches no
+	// record field other than the bond, and is accepted from the governance authority only
+	if f[0] == "punish" && res == "ok" {
+		if kv["auth"] != "gov" {
+			m.violate("C07/punish/accepted-without-governance-authority", op)
+		}
+		for ri, r := range cur.Ras {
+			if !r.Exists || ri >= len(prev.Ras) || !prev.Ras[ri].Exists {
+				continue
+			}
+			pr := prev.Ras[ri]
+			if r.Prop != pr.Prop || r.Succ != pr.Succ {
+				m.violate("C07/punish/role-changed-by-punish-proposal", fmt.Sprintf("r%d proposer %s -> %s successor %s -> %s by %s", ri, coreActorName(pr.Prop), coreActorName(r.Prop), coreActorName(pr.Succ), coreActorName(r.Succ), op))
+			}
+			if len(r.Revs) != len(pr.Revs) || r.EvH != pr.EvH || r.CdStart != pr.CdStart {
+				m.violate("C07/punish/fork-or-clock-reset-by-punish-proposal", fmt.Sprintf("r%d by %s", ri, op))
+			}
+		}
+		for i, cq := range cur.Seqs {
+			pq, ok := prev.Seqs[i]
+			if !ok || cq.Ra != pq.Ra || cq.Bonded != pq.Bonded || cq.OptedIn != pq.OptedIn || cq.Notice != pq.Notice || cq.Dishonor != pq.Dishonor ||
+				(coreActorName(i) != f[1] && !cq.Tokens.Equal(pq.Tokens)) {
+				m.violate("C07/punish/record-changed-beyond-the-punished-bond", fmt.Sprintf("a%d %+v -> %+v by %s", i, pq, cq, op))
+			}
+		}
+		if len(cur.Seqs) != len(prev.Seqs) || fmt.Sprint(cur.Nq) != fmt.Sprint(prev.Nq) {
+			m.violate("C07/punish/record-changed-beyond-the-punished-bond", "sequencer set or notice queue changed by "+op)
+		}
+		tgt := int(atoi(strings.TrimPrefix(f[1], "a")))
+		if pq, ok := prev.Seqs[tgt]; ok {
+			role := "non-proposer"
+			switch {
+			case prev.Ras[pq.Ra].Prop == tgt:
+				role = "proposer"
+			case prev.Ras[pq.Ra].Succ == tgt:
+				role = "successor"
+			case !pq.Bonded:
+				role = "unbonded"
+			}
+			m.r.Hit("punish/accepted/" + role)
+			if pq.Tokens.IsZero() {
+				m.r.Hit("punish/accepted/zero-bond")
+			}
+		}
+	}
+	if f[0] == "end" && res == "ok" {
+		for _, r := range prev.Ras {
+			if r.Exists && r.Prop >= 0 && prev.Seqs[r.Prop].Tokens.IsZero() {
+				m.r.Hit("end/zero-bond-proposer")
+				if cq, pq := cur.Seqs[r.Prop], prev.Seqs[r.Prop]; cq.Dishonor > pq.Dishonor {
+					m.r.Hit("end/zero-bond-proposer-dishonored")
+				}
+			}
+		}
+	}
 	// ---- C06 bond decrease classification
 	for i, cq := range cur.Seqs {
 		pq, ok := prev.Seqs[i]
@@ -504,7 +644,8 @@ func (m *coreMon) check(op string, res string, cur *coreSnap) {
 				if !prev.Supply.Sub(cur.Supply).Equal(d) && len(cur.Seqs) > 0 {
 					// several slashes in one block: compare totals below
 				}
-			case f[0] == "fraud" && res == "ok" && kv["punish"] == coreActorName(i):
+			case res == "ok" && ((f[0] == "fraud" && kv["punish"] == coreActorName(i)) || (f[0] == "punish" && f[1] == coreActorName(i))):
+				// a governance punishment: inside a fraud proposal, or the standalone PunishSequencerProposal
 				burned := prev.Supply.Sub(cur.Supply)
 				paid := math.ZeroInt()
 				if rw := kv["rewardee"]; strings.HasPrefix(rw, "m") {
@@ -520,6 +661,9 @@ func (m *coreMon) check(op string, res string, cur *coreSnap) {
 				}
 				if !burned.Add(paid).Equal(d) || paid.GT(d.QuoRaw(2)) {
 					m.violate("C06/punish/not-burned-or-over-rewarded", fmt.Sprintf("a%d lost %s burned %s rewardee got %s", i, d, burned, paid))
+				}
+				if f[0] == "punish" && !cq.Tokens.IsZero() {
+					m.violate("C06/punish/punish-proposal-left-a-bond", fmt.Sprintf("a%d bond %s -> %s", i, pq.Tokens, cq.Tokens))
 				}
 			default:
 				m.violate("C06/decrease/bond-decreased-by-unrelated-op", fmt.Sprintf("a%d -%s by %s (res %s)", i, d, op, res))
@@ -694,6 +838,15 @@ func (c *coreGen) next(s *coreSnap, inBlock *bool, step int) string {
 		}
 		return fmt.Sprintf("packet r%d ph=%d seq=%d t=%s", ri, ph, c.pkSeq, []string{"R", "A", "T"}[g.Intn(3)])
 	}
+	if g.Chance(3 + map[string]int{"C11": 6, "C18": 2}[c.focus]) {
+		return c.genXfer(s, ri)
+	}
+	if g.Chance(2 + map[string]int{"C07": 3, "C08": 4, "C11": 2, "C18": 1}[c.focus]) {
+		return c.genSeqParams()
+	}
+	if len(allSeqs) > 0 && g.Chance(3+map[string]int{"C06": 4, "C07": 4, "C08": 3, "C11": 2}[c.focus]) {
+		return c.genPunish(s, ri, members, allSeqs)
+	}
 	w := g.Intn(100)
 	switch {
 	case w < 8 || (len(members) < 3 && w < 45):
@@ -864,6 +1017,150 @@ func (c *coreGen) genUpdate(s *coreSnap, ri int) string {
 		by = c.pickActor()
 	}
 	return fmt.Sprintf("update r%d by=a%d start=%d num=%d bdlen=%d rev=%d last=%d seqerr=%s ts=%s drs=%d rooterr=%s%s", ri, by, start, num, bdlen, rev, last, seqerr, ts, drs, rooterr, drs0)
+}
+
+// genSeqParams: x/sequencer MsgUpdateParams — a fresh valid parameter set (the pools of coreGenParams), or
+// one invalid field (notice period 0, kick threshold 0, multiplier above 1), or a signer without authority
+func (c *coreGen) genSeqParams() string {
+	g := c.g
+	notice := []int64{1000000000, 5000000000, 12000000000}[g.Intn(3)]
+	kick := []uint64{1, 2, 4}[g.Intn(3)]
+	mul := []string{"0", "1", "10000000000000000", "333333333333333333", "500000000000000000", "1000000000000000000"}[g.Intn(6)]
+	abs := []uint64{0, 1, 7, 50, 1000}[g.Intn(5)]
+	dsu := []uint64{0, 1, 2}[g.Intn(3)]
+	dl := []uint64{0, 1, 3}[g.Intn(3)]
+	auth := "gov"
+	switch x := g.Intn(100); {
+	case x < 8:
+		auth = fmt.Sprintf("a%d", c.pickActor())
+		c.r.Hit("set_seq_params/wrong-authority")
+	case x < 12:
+		notice = 0
+		c.r.Hit("set_seq_params/zero-notice-period")
+	case x < 16:
+		kick = 0
+		c.r.Hit("set_seq_params/zero-kick-threshold")
+	case x < 20:
+		mul = "1000000000000000001"
+		c.r.Hit("set_seq_params/multiplier-above-one")
+	default:
+		c.r.Hit("set_seq_params/valid")
+	}
+	return fmt.Sprintf("set_seq_params notice=%d kick=%d mul=%s abs=%d dsu=%d dl=%d auth=%s", notice, kick, mul, abs, dsu, dl, auth)
+}
+
+// genXfer: MsgTransferOwnership — signed by the current owner / the first owner (an old owner retrying
+// after a transfer) / anybody; to an ordinary actor / a blocked module account (also spelled in upper
+// case) / the current owner itself / the first owner / nobody
+func (c *coreGen) genXfer(s *coreSnap, ri int) string {
+	g := c.g
+	ra := s.Ras[ri]
+	by := ra.Owner
+	switch x := g.Intn(100); {
+	case x < 70:
+		c.r.Hit("xferowner/by-owner")
+	case x < 85:
+		by = "o0"
+		if ra.Owner != "o0" {
+			c.r.Hit("xferowner/by-old-owner")
+		}
+	default:
+		by = fmt.Sprintf("a%d", c.pickActor())
+		c.r.Hit("xferowner/by-anybody")
+	}
+	to, uc := fmt.Sprintf("a%d", c.pickActor()), 0
+	switch x := g.Intn(100); {
+	case x < 50:
+		c.r.Hit("xferowner/to-actor")
+	case x < 64:
+		to = "m0"
+		c.r.Hit("xferowner/to-blocked")
+	case x < 76:
+		to, uc = "m0", 1
+		c.r.Hit("xferowner/to-blocked-upper-case")
+	case x < 86:
+		to = ra.Owner
+		c.r.Hit("xferowner/to-same-owner")
+	case x < 94:
+		to = "o0"
+		c.r.Hit("xferowner/to-first-owner")
+	default:
+		to = fmt.Sprintf("a%d", c.h.p.NActors+1+g.Intn(2))
+		c.r.Hit("xferowner/to-nobody")
+	}
+	rr := fmt.Sprintf("r%d", ri)
+	if g.Chance(4) {
+		rr = fmt.Sprintf("r%d", c.h.p.NRollapps+1)
+		c.r.Hit("xferowner/unknown-rollapp")
+	}
+	return fmt.Sprintf("xferowner %s by=%s to=%s uc=%d", rr, by, to, uc)
+}
+
+// genPunish: the standalone governance PunishSequencerProposal — against the proposer / another member
+// of the rollapp / a sequencer of another rollapp / an unbonded sequencer / an address that is no
+// sequencer; rewardee none / an ordinary actor (possibly the punished one) / the blocked module account m0
+func (c *coreGen) genPunish(s *coreSnap, ri int, members, allSeqs []int) string {
+	g := c.g
+	ra := s.Ras[ri]
+	tgt := -1
+	switch x := g.Intn(100); {
+	case x < 35 && ra.Prop >= 0:
+		tgt = ra.Prop
+		c.r.Hit("punish/target-proposer")
+	case x < 60 && len(members) > 0:
+		tgt = members[g.Intn(len(members))]
+		c.r.Hit("punish/target-member")
+	case x < 75:
+		var others []int
+		for _, i := range allSeqs {
+			if s.Seqs[i].Ra != ri {
+				others = append(others, i)
+			}
+		}
+		if len(others) > 0 {
+			tgt = others[g.Intn(len(others))]
+			c.r.Hit("punish/target-other-rollapp")
+		}
+	case x < 88:
+		var unb []int
+		for _, i := range allSeqs {
+			if !s.Seqs[i].Bonded {
+				unb = append(unb, i)
+			}
+		}
+		if len(unb) > 0 {
+			tgt = unb[g.Intn(len(unb))]
+			c.r.Hit("punish/target-unbonded")
+		}
+	default:
+		for k := 0; k < c.h.p.NActors+2; k++ {
+			if _, ok := s.Seqs[k]; !ok {
+				tgt = k
+				break
+			}
+		}
+		c.r.Hit("punish/target-not-a-sequencer")
+	}
+	if tgt < 0 {
+		tgt = allSeqs[g.Intn(len(allSeqs))]
+	}
+	rewardee := "-"
+	switch x := g.Intn(100); {
+	case x < 25:
+		c.r.Hit("punish/rewardee-none")
+	case x < 80:
+		rewardee = fmt.Sprintf("a%d", c.pickActor())
+		c.r.Hit("punish/rewardee-ordinary")
+	default:
+		rewardee = "m0"
+		c.r.Hit("punish/rewardee-blocked")
+	}
+	auth := "gov"
+	if g.Chance(8) {
+		auth = fmt.Sprintf("a%d", c.pickActor())
+		c.r.Hit("punish/wrong-authority")
+	}
+	return fmt.Sprintf("punish a%d rewardee=%s auth=%s", tgt, rewardee, auth)
 }
 
 func (c *coreGen) genFraud(s *coreSnap, ri int, members []int) string {
@@ -1048,6 +1345,9 @@ func runCore(t *testing.T, id string) {
 		for _, l := range tr {
 			if strings.HasPrefix(l, "fraud ") && strings.Contains(l, "rewardee=m") {
 				r.Hit("fraud/blocked-rewardee")
+			}
+			if strings.HasPrefix(l, "punish ") {
+				r.Hit("corpus/punish-proposal")
 			}
 		}
 	}
